@@ -219,6 +219,15 @@ class Ctx:
             test()
         except Violation as e:
             self.report(sub, holder.get("case"), holder.get("exc", e))
+        except hypothesis.errors.Flaky as e:
+            # The sub-checks are pure functions of the case, so a failure that does not repeat on the same case means the
+            # code under test is not deterministic (uninitialised output, race): the observed violation is reported as such.
+            if "exc" in holder:
+                exc = holder["exc"]
+                self.report(sub, holder.get("case"), Violation("non-deterministic (failed on one call, held on a repeat of the same case): %s" % exc,
+                                                               getattr(exc, "signature", None)))
+            else:
+                raise HarnessError("hypothesis flaky failure in %s/%s: %r" % (self.pid, sub, e))
         except hypothesis.errors.HypothesisException as e:
             raise HarnessError("hypothesis failure in %s/%s: %r" % (self.pid, sub, e))
 
